@@ -167,7 +167,8 @@ func c20Attempt() {
 	}
 	// ... or (timed mode, sometimes) is a context whose Done channel never fires and whose Err() alone
 	// reports the cancellation: LinearAttempt re-checks Err() after every tick for exactly this case
-	errOnly := cancelMode == c20AfterTime && !byDeadline && errOnlyDraw
+	// (also cancelled before or while LinearAttempt is called: "already closed and empty" is decided by Err())
+	errOnly := (cancelMode == c20AfterTime || cancelMode == c20Before || cancelMode == c20Race) && !byDeadline && errOnlyDraw
 	if errOnly {
 		eo := &c20ErrOnly{Context: context.Background(), never: make(chan struct{})}
 		ctx, cancel = eo, eo.cancel
@@ -175,6 +176,7 @@ func c20Attempt() {
 	}
 	ctxDone := ctx.Done() // fetched here so that the step hook below polls it without touching the context's lock
 	st := &c20State{count: count, rate: rate}
+	tickReqsAtCancel := 0 // ticker (re)arm requests logged when cancel() returned
 	doCancel := func() {
 		if st.cancelInv != 0 {
 			cancel()
@@ -184,6 +186,7 @@ func c20Attempt() {
 		simrt.Fault("ctx_cancel")
 		cancel()
 		st.cancelRet = simrt.Stamp()
+		tickReqsAtCancel = c20TickerReqs()
 		st.lenAtCanc = 1
 		if st.ch != nil {
 			st.lenAtCanc = len(st.ch)
@@ -354,8 +357,11 @@ func c20Attempt() {
 		if !alive {
 			break
 		}
-		if errOnly && st.cancelRet != 0 && windowsAfterCancel < 1 {
-			continue // a context that only reports through Err() is noticed at the next tick: give it one
+		if errOnly && st.cancelRet != 0 && (windowsAfterCancel < 1 || c20TickerReqs() < tickReqsAtCancel+2) {
+			// a context that only reports through Err() is noticed at the next tick: wait until one tick
+			// has certainly fired after the cancellation (the ticker may not even have existed yet: its
+			// creation is one request in the timer log, every tick that fires re-arms it with another)
+			continue
 		}
 		if st.cancelRet != 0 {
 			simrt.Failf("C20.producer-alive-after-cancel", "quiescent after cancel() returned, but the producing goroutine is still there: %s", desc)
